@@ -225,3 +225,59 @@ def core_jsonable(c):
         return json.loads(json.dumps(c))
     except TypeError:
         return repr(c)
+
+
+class LineCover:
+    """which lines of the modelled functions the correspondence inputs execute (sys.monitoring, Python 3.12)"""
+
+    def __init__(self, funcs, tool_id=4):
+        import sys
+        self.mon = getattr(sys, 'monitoring', None)
+        self.tool = tool_id
+        self.codes = {}
+        for f in funcs:
+            c = getattr(f, '__code__', None)
+            if c is not None:
+                self.codes[c] = set()
+
+    def __enter__(self):
+        if self.mon is None:
+            return self
+        try:
+            self.mon.use_tool_id(self.tool, 'c11cover')
+        except ValueError:
+            self.mon = None
+            return self
+        ev = self.mon.events.LINE
+
+        def cb(code, line):
+            s = self.codes.get(code)
+            if s is not None:
+                s.add(line)
+            return self.mon.DISABLE
+
+        self.mon.register_callback(self.tool, ev, cb)
+        for c in self.codes:
+            self.mon.set_local_events(self.tool, c, ev)
+        return self
+
+    def __exit__(self, *a):
+        if self.mon is None:
+            return False
+        for c in self.codes:
+            self.mon.set_local_events(self.tool, c, 0)
+        self.mon.register_callback(self.tool, self.mon.events.LINE, None)
+        self.mon.free_tool_id(self.tool)
+        return False
+
+    def report(self):
+        """{function: [uncovered line numbers]} (docstring lines are not code lines and never listed)"""
+        out = {}
+        for c, seen in self.codes.items():
+            lines = {ln for (_s, _e, ln) in c.co_lines() if ln is not None and ln != c.co_firstlineno}
+            # nested code objects (generators, lambdas) are not tracked separately: drop their lines
+            for k in c.co_consts:
+                if hasattr(k, 'co_lines'):
+                    lines -= {ln for (_s, _e, ln) in k.co_lines() if ln is not None}
+            out[c.co_qualname] = sorted(lines - seen)
+        return out
